@@ -176,7 +176,7 @@ func (s scen) run(c *hx.Ctx) *hx.ScenarioResult {
 		}
 		sched.Finish()
 	}
-	return hx.ExploreScenario(c, "C03", s.name(), sched.Options{Bound: s.bound, MaxSteps: 100000, BoundAll: true, NoEarlyClock: true}, body, s.judge)
+	return hx.ExploreScenario(c, "C03", s.name(), sched.Options{Bound: s.bound, MaxSteps: 100000, BoundAll: true, NoEarlyClock: true, HoldBack: true}, body, s.judge)
 }
 
 const timeoutText = "Task timed out after 3.00 seconds"
